@@ -129,6 +129,13 @@ def poly_meshes(ctx):
             o['elem_ids'] = rng.choice(['seq', pat])
             o['shuffle_elems'] = False
             out.append(G.solid_mesh(rng, [rng.choice(ks)], o))
+    # mixed meshes whose per-type blocks store their elements with non-ascending ids
+    for pat in ['unsorted', 'unsorted', 'reversed', 'adjacent_swap', 'one_moved', 'denseA_ends']:
+        o = G.random_opts(rng)
+        o['elem_ids'] = pat
+        o['shuffle_elems'] = pat == 'unsorted'
+        out.append(G.solid_mesh(rng, rng.choice([['hex', 'prism', 'tet'], ['prism', 'pyr', 'tet'],
+                                                 ['hex', 'prism', 'pyr', 'tet']]), o, dims=(2, 2, 1)))
     # node ids beyond int32
     for ks in (['tet'], ['hex']):
         o = G.random_opts(rng)
@@ -156,6 +163,9 @@ def check_polyhedron(ctx, model_ok):
         ctx.count('poly:kinds:' + '+'.join(kinds))
         ctx.count('poly:node_ids:' + meta['node_ids'] + ('/shuffled' if meta['shuffle_nodes'] else ''))
         ctx.count('poly:node ids ascending in storage' if asc else 'poly:node ids NOT ascending in storage')
+        if len(m['blocks']) > 1:
+            ctx.count('poly:mixed, block ids ascending in storage' if all(ascending(b[1]) for b in m['blocks'])
+                      else 'poly:mixed, some block ids NOT ascending in storage')
         ctx.case(['poly', m['node_ids'], m['coords'], m['blocks']],
                  sample={'op': 'to_polyhedron', 'kinds': kinds, 'labelling': labelling(m),
                          'n_nodes': len(m['node_ids']), 'first_faces': (r.get('faces') or [None])[0]})
@@ -219,7 +229,10 @@ def check_polyhedron(ctx, model_ok):
         if problems:
             n_bad += 1
             for t in sorted(bad_types) or ['mesh']:
+                unsorted_block = len(m['blocks']) > 1 and not all(ascending(b[1]) for b in m['blocks'])
                 cause = 'int32-cast' if large else ('no-argsort' if not asc else 'other')
+                if unsorted_block:
+                    cause += '|mixed-block-ids-not-ascending-in-storage'
                 ctx.violation(
                     'impl-violation', {'op': 'to_polyhedron', 'mesh': mesh_of(m), 'labelling': labelling(m)},
                     'closed outward face list over the element\'s own nodes, same volume',
